@@ -241,13 +241,18 @@ Proof. intros Hn Hmac Harg Hc (HP & Hok & Hlen & Hcnt). pose proof HP as (HS & H
     destruct HP6 as (HP6 & Hc6 & Hm6).
     change (let s5 := s4 <| cidx := id |> in
             let s6 := if str_eqb n (R "Ch") || str_eqb n (R "Pt") then s5 <| cid := id |> else s5 in _)
-      with (let ref := header_reference s6 in let num := header_num (toc s6) n nonum in
+      with (let s6 := if (match fmt s6 with FX => true | _ => false end) && X.custom_ids s6 && negb (X.id_safe (cidx s6))
+                      then err "id contains a markup character and cannot be used as custom id" s6 else s6 in
+            let ref := header_reference s6 in let num := header_num (toc s6) n nonum in
             let s7 := match id with [] => s6 | _ => store_id id (mkId ref num 5) s6 end in
             let '(title, s8) := pim (a0 :: al) s7 in
             let e := mkLox (hcount (toc s8)) n nonum num ref (R "s") title id in
             let s9 := s8 <| lox_toc ::= fun l => l ++ [e] |> in
             if str_eqb n (R "Pt") || str_eqb n (R "Ch") then s9 <| lox_nav ::= fun l => l ++ [e] |> else s9).
     clearbody s6. cbv zeta.
+    assert (Hcond : (match fmt s6 with FX => true | _ => false end) && X.custom_ids s6 && negb (X.id_safe (cidx s6)) = false)
+      by (rewrite (custom_ids_default s6 (sd_pa _ _ _ _ (proj1 HP6))), andb_false_r; reflexivity).
+    rewrite Hcond. cbv iota.
     pose proof (header_ref_shape _ s6 (proj1 HP6)) as Eref. pose proof (header_ref_no_gt _ _ _ s6 (proj1 HP6)) as Hrgt.
     set (ref := header_reference s6) in *. set (num := header_num (toc s6) n nonum).
     set (s7 := match id with [] => s6 | _ => store_id id (mkId ref num 5) s6 end).
